@@ -36,8 +36,14 @@ Section CkptP.
   Variables Str Gen Sched Loss : Type.
   Variable str_eqb : Str -> Str -> bool.
   Variables JsonT PSched PLoss CsvT : Type.
-  Variable jenc : jparams F Str Gen -> JsonT.
-  Variable jdec : JsonT -> option (jparams F Str Gen).
+  Variable Dg : Type.
+  Variable Dg_eqb : Dg -> Dg -> bool.
+  Variable dg_s : option PSched -> Dg.
+  Variable dg_l : option PLoss -> Dg.
+  Variable dg_c : CsvT -> Dg.
+  Variable dg_h : h5file F -> Dg.
+  Variable jenc : jparams F Str Gen Dg -> JsonT.
+  Variable jdec : JsonT -> option (jparams F Str Gen Dg).
   Variable pick_s : Sched -> option PSched.
   Variable unpick_s : PSched -> option Sched.
   Variable pick_l : Loss -> option PLoss.
@@ -50,11 +56,11 @@ Section CkptP.
   Notation state := (state F Str Gen Sched Loss).
   Notation folder := (folder F JsonT PSched PLoss CsvT).
   Notation h5file := (h5file F).
-  Notation save_with := (save_with F Str Gen Sched Loss JsonT PSched PLoss CsvT jenc pick_s pick_l csv_print).
-  Notation save := (save F F_eqb Str Gen Sched Loss JsonT PSched PLoss CsvT jenc pick_s pick_l csv_print).
-  Notation save_legacy := (save_legacy F Str Gen Sched Loss JsonT PSched PLoss CsvT jenc pick_s pick_l csv_print).
-  Notation load := (load F Str Gen Sched Loss JsonT PSched PLoss CsvT jdec unpick_s unpick_l csv_parse).
-  Notation restore := (restore F Str Gen Sched Loss str_eqb JsonT PSched PLoss CsvT jdec unpick_s unpick_l csv_parse fresh_gen table_of).
+  Notation save_with := (save_with F Str Gen Sched Loss JsonT PSched PLoss CsvT Dg dg_s dg_l dg_c dg_h jenc pick_s pick_l csv_print).
+  Notation save := (save F F_eqb Str Gen Sched Loss JsonT PSched PLoss CsvT Dg dg_s dg_l dg_c dg_h jenc pick_s pick_l csv_print).
+  Notation save_legacy := (save_legacy F Str Gen Sched Loss JsonT PSched PLoss CsvT Dg dg_s dg_l dg_c dg_h jenc pick_s pick_l csv_print).
+  Notation load := (load F Str Gen Sched Loss JsonT PSched PLoss CsvT Dg Dg_eqb dg_s dg_l dg_c dg_h jdec unpick_s unpick_l csv_parse).
+  Notation restore := (restore F Str Gen Sched Loss str_eqb JsonT PSched PLoss CsvT Dg Dg_eqb dg_s dg_l dg_c dg_h jdec unpick_s unpick_l csv_parse fresh_gen table_of).
   Notation wf := (wf F Str Gen Sched Loss).
   Notation frame := (frame F Str Gen Sched Loss).
   Notation h5_write := (h5_write F F_eqb).
@@ -64,11 +70,12 @@ Section CkptP.
   Notation SRaise := (SRaise F JsonT PSched PLoss CsvT).
 
   (* the recorded contracts of the external codecs *)
-  Hypothesis Hjson : json_rt F Str Gen JsonT jenc jdec.
+  Hypothesis Hjson : json_rt F Str Gen JsonT Dg jenc jdec.
   Hypothesis Hps : pickle_s_rt Sched PSched pick_s unpick_s.
   Hypothesis Hpl : pickle_l_rt Loss PLoss pick_l unpick_l.
   Hypothesis Hstr : str_eqb_refl Str str_eqb.
   Hypothesis HF : F_eqb_spec F F_eqb.
+  Hypothesis HDg : Dg_eqb_refl Dg Dg_eqb.
 
   (* ---------------------------------------------------------------- table <-> columns *)
   Lemma zip4_cols : forall (a : list F) (b c : list Z) (d : list (list F)),
@@ -144,8 +151,10 @@ Section CkptP.
     pose proof Hwf as (HD & H1 & H2 & H3 & Hrows & Hdims & Hnz & Hdts).
     eexists. split.
     - unfold Checkpoint.save_with. rewrite Hbs, Hbl, Hfr, Hw. reflexivity.
-    - unfold Checkpoint.restore, Checkpoint.load. cbn [f_json f_sched f_loss f_csv f_h5 set_json set_sched set_loss set_csv set_h5].
-      rewrite Hjson, Hcsv. cbn [j_precision jparams_of].
+    - unfold Checkpoint.restore, Checkpoint.load, Checkpoint.commit, Checkpoint.check_digests.
+      cbn [f_json f_sched f_loss f_csv f_h5 set_json set_sched set_loss set_csv set_h5].
+      rewrite Hjson. cbn [j_files jparams_of].
+      rewrite !HDg. cbn [negb]. rewrite Hcsv. cbn [j_precision jparams_of].
       rewrite (frame_ok s Hwf) in Hfr. injection Hfr as <-. cbn [t_ncols] in Hnc.
       rewrite Hnc, <- Hdims, Nat.leb_refl. cbn [negb].
       destruct (Nat.eqb (s_pdims _ _ _ _ _ s) 0) eqn:Hz; [apply Nat.eqb_eq in Hz; contradiction|].
@@ -263,15 +272,21 @@ Section CkptP.
   Qed.
 
   (* ---------------------------------------------------------------- unpicklable scheduler (RL) *)
-  Theorem save_unpicklable w f s name :
+  (* the json is written last: a save that raises leaves the previous json (and csv, h5) in place and a truncated
+     scheduler pickle - such a folder can never be restored, whatever it held *)
+  Theorem save_unpicklable w f s :
     pick_s (s_sched _ _ _ _ _ s) = None ->
-    exists f', save_with w f s = SRaise ExPickle f' /\ exists e, restore f' name = Raise e.
+    exists f', save_with w f s = SRaise ExPickle f' /\ f_json _ _ _ _ _ f' = f_json _ _ _ _ _ f /\
+               forall name, exists e, restore f' name = Raise e.
   Proof.
-    intros Hp. eexists. split; [unfold Checkpoint.save_with; rewrite Hp; reflexivity|].
-    unfold Checkpoint.restore, Checkpoint.load. cbn [f_json f_sched f_loss f_csv f_h5 set_json set_sched].
-    rewrite Hjson. destruct (f_csv _ _ _ _ _ f) as [ct|]; [|eexists; reflexivity].
-    destruct (csv_parse ct) as [t|]; [|eexists; reflexivity].
-    destruct (negb _); [eexists; reflexivity|]. destruct (Nat.eqb _ 0); eexists; reflexivity.
+    intros Hp. eexists. split; [unfold Checkpoint.save_with; rewrite Hp; reflexivity|]. split; [reflexivity|]. intros name.
+    unfold Checkpoint.restore, Checkpoint.load, Checkpoint.check_digests. cbn [f_json f_sched f_loss f_csv f_h5 set_sched].
+    repeat match goal with
+           | |- exists e, Raise _ = Raise e => eexists; reflexivity
+           | |- exists e, match match ?x with _ => _ end with _ => _ end = _ => destruct x
+           | |- exists e, match (if ?x then _ else _) with _ => _ end = _ => destruct x
+           | |- exists e, match (let '(_, _) := ?x in _) with _ => _ end = _ => destruct x
+           end.
   Qed.
 
   (* ---------------------------------------------------------------- SQLite *)
@@ -365,42 +380,8 @@ Section RunP.
                 end = (s', e, r) -> DiskExt s').
       { intros e1 H0. destruct (end_session _ _) as [sc'|e2]; injection H0 as <- <- <-; [|exact Hx1].
         eapply diskext_same; eauto. }
-      assert (Hck : forall x,
-               (if Nat.eqb n 0 && c_saving (cfg _ _ _ (live _ _ _ s1))
-                then match Calibrator.save _ _ _ (live _ _ _ s1) with
-                     | Some d => inl (mkSt _ _ _ (live _ _ _ s1) (Some d)) | None => inr ExOther end
-                else inl s1) = x ->
-               (exists e0, x = inr e0) \/ (exists s2, x = inl s2 /\ live _ _ _ s2 = live _ _ _ s1 /\ DiskExt s2)).
-      { intros x Hxx. destruct (Nat.eqb n 0 && _).
-        - unfold Calibrator.save in Hxx. destruct (sch _ _ _ (live _ _ _ s1)); subst x.
-          + right. eexists. split; [reflexivity|]. cbn. split; [reflexivity|]. apply diskext_fresh.
-          + left. eexists; reflexivity.
-        - subst x. right. exists s1. auto. }
-      assert (Hdone : forall x,
-                (if Nat.eqb n 0 && c_saving (cfg _ _ _ (live _ _ _ s1))
-                 then match Calibrator.save _ _ _ (live _ _ _ s1) with
-                      | Some d => inl (mkSt _ _ _ (live _ _ _ s1) (Some d)) | None => inr ExOther end
-                 else inl s1) = x ->
-                match x with
-                | inr e0 =>
-                  match end_session _ (sch _ _ _ (live _ _ _ s1)) with
-                  | inr e' => (s1, Some e', [])
-                  | inl sc' => (mkSt _ _ _ (set_sch _ _ _ (live _ _ _ s1) sc') (disk _ _ _ s1), Some e0, [])
-                  end
-                | inl s'' =>
-                  match end_session _ (sch _ _ _ (live _ _ _ s'')) with
-                  | inr e1 => (s'', Some e1, [])
-                  | inl sc' => let c' := set_sch _ _ _ (live _ _ _ s'') sc' in
-                               (mkSt _ _ _ c' (disk _ _ _ s''), None,
-                                sort_pairs _ _ loss_leb (combine (params _ _ _ c') (losses _ _ _ c')))
-                  end
-                end = (s', e, r) -> DiskExt s').
-      { intros x Hxx H0. destruct (Hck _ Hxx) as [[e1 ->]|(s2 & -> & Hlive & Hx2)].
-        - eapply Hraise; eauto.
-        - cbv zeta in H0. destruct (end_session _ (sch _ _ _ (live _ _ _ s2))) as [sc'|e1]; injection H0 as <- <- <-.
-          + eapply diskext_same; [exact Hx2 | reflexivity | reflexivity].
-          + exact Hx2. }
-      destruct o1; [eapply Hdone; [reflexivity | exact H] | eapply Hdone; [reflexivity | exact H] | eapply Hraise; eauto]. }
+      destruct o1; [| |eapply Hraise; eauto].
+      all: cbv zeta in H; destruct (end_session _ _) as [sc'|e2]; injection H as <- <- <-; [eapply diskext_same; eauto | exact Hx1]. }
     injection H as <- <- <-. eapply diskext_same; eauto.
   Qed.
 
@@ -484,40 +465,31 @@ Section RunP.
   Lemma set_sch_id (c : core) : set_sch _ _ _ c (sch _ _ _ c) = c.
   Proof. destruct c; reflexivity. Qed.
 
-  (* whenever calibrate() returns (no exception) with a saving folder set, the folder holds the state it returned with
-     - n = 0 included (repair C04-calibrate-zero-checkpoint), early stop included (repair 55d2acb) *)
+  (* whenever calibrate(n), n >= 1, returns (no exception) with a saving folder set, the folder holds the state it
+     returned with - early stop included (repair 55d2acb) *)
   Theorem calibrate_leaves_current_checkpoint n s s' ret :
-    c_saving (cfg _ _ _ (live _ _ _ s)) = true -> calibrate n s = (s', None, ret) -> disk _ _ _ s' = Some (live _ _ _ s').
+    c_saving (cfg _ _ _ (live _ _ _ s)) = true -> calibrate (S n) s = (s', None, ret) -> disk _ _ _ s' = Some (live _ _ _ s').
   Proof.
     intros Hsav H. unfold Calibrator.calibrate in H.
     set (c1 := if Nat.eqb _ 0 then _ else _) in H.
     assert (Hcfg1 : cfg _ _ _ c1 = cfg _ _ _ (live _ _ _ s)) by (unfold c1; destruct (Nat.eqb _ 0); reflexivity).
     destruct (start_session _ _) as [sc|e0]; [|discriminate].
-    destruct (batches n _) as [s1 o1] eqn:Hb.
-    assert (Hfin : forall s2, disk _ _ _ s2 = Some (live _ _ _ s2) -> (exists l b, sch _ _ _ (live _ _ _ s2) = RR _ l b) ->
-              match end_session _ (sch _ _ _ (live _ _ _ s2)) with
-              | inr e => (s2, Some e, [])
-              | inl sc' => (mkSt _ _ _ (set_sch _ _ _ (live _ _ _ s2) sc') (disk _ _ _ s2), None,
-                            sort_pairs _ _ loss_leb (combine (params _ _ _ (set_sch _ _ _ (live _ _ _ s2) sc'))
-                                                             (losses _ _ _ (set_sch _ _ _ (live _ _ _ s2) sc'))))
+    destruct (batches (S n) _) as [s1 o1] eqn:Hb.
+    assert (Hsav0 : c_saving (cfg _ _ _ (live _ _ _ (mkSt _ _ _ (set_sch _ _ _ c1 sc) (disk _ _ _ s)))) = true)
+      by (cbn; now rewrite Hcfg1).
+    assert (Hfin : disk _ _ _ s1 = Some (live _ _ _ s1) -> (exists l b, sch _ _ _ (live _ _ _ s1) = RR _ l b) ->
+              match end_session _ (sch _ _ _ (live _ _ _ s1)) with
+              | inr e => (s1, Some e, [])
+              | inl sc' => (mkSt _ _ _ (set_sch _ _ _ (live _ _ _ s1) sc') (disk _ _ _ s1), None,
+                            sort_pairs _ _ loss_leb (combine (params _ _ _ (set_sch _ _ _ (live _ _ _ s1) sc'))
+                                                             (losses _ _ _ (set_sch _ _ _ (live _ _ _ s1) sc'))))
               end = (s', None, ret) -> disk _ _ _ s' = Some (live _ _ _ s')).
-    { intros s2 Hd (l & b & Hrr) H0. rewrite Hrr in H0. cbn [end_session] in H0. injection H0 as <- _. cbn [live disk].
+    { intros Hd (l & b & Hrr) H0. rewrite Hrr in H0. cbn [end_session] in H0. injection H0 as <- _. cbn [live disk].
       rewrite <- Hrr, set_sch_id. exact Hd. }
-    assert (Hraise : forall e0 x, match end_session _ (sch _ _ _ (live _ _ _ s1)) with
-                | inr e' => (s1, Some e', [])
-                | inl sc' => (mkSt _ _ _ (set_sch _ _ _ (live _ _ _ s1) sc') (disk _ _ _ s1), Some e0, x)
-                end = (s', None, ret) -> False).
-    { intros e1 x H0. destruct (end_session _ _); discriminate. }
-    destruct n as [|n].
-    - cbn in Hb. injection Hb as <- <-. cbn [Nat.eqb andb live cfg] in H. cbn [cfg set_sch] in H. rewrite Hcfg1, Hsav in H.
-      destruct (Calibrator.save _ _ _ _) as [d|] eqn:Hs; [|exfalso; eapply (Hraise ExOther []); exact H].
-      apply save_some in Hs as [-> Hrr]. cbv zeta in H. eapply Hfin; [| |exact H]; [reflexivity | exact Hrr].
-    - assert (Hsav0 : c_saving (cfg _ _ _ (live _ _ _ (mkSt _ _ _ (set_sch _ _ _ c1 sc) (disk _ _ _ s)))) = true)
-        by (cbn; now rewrite Hcfg1).
-      destruct o1; [| |exfalso; eapply (Hraise e []); exact H].
-      all: cbn [Nat.eqb andb] in H; cbv zeta in H.
-      + destruct (batches_saved _ _ _ _ Hb (or_introl eq_refl) Hsav0) as (A & _ & C). eapply Hfin; eauto.
-      + destruct (batches_saved _ _ _ _ Hb (or_intror eq_refl) Hsav0) as (A & _ & C). eapply Hfin; eauto.
+    destruct o1.
+    - cbv zeta in H. destruct (batches_saved _ _ _ _ Hb (or_introl eq_refl) Hsav0) as (A & _ & C). eapply Hfin; eauto.
+    - cbv zeta in H. destruct (batches_saved _ _ _ _ Hb (or_intror eq_refl) Hsav0) as (A & _ & C). eapply Hfin; eauto.
+    - destruct (end_session _ _); discriminate.
   Qed.
 End RunP.
 
@@ -530,8 +502,14 @@ Section LinkP.
   Variables Str Gen : Type.
   Variable str_eqb : Str -> Str -> bool.
   Variables JsonT PLoss CsvT : Type.
-  Variable jenc : jparams F Str Gen -> JsonT.
-  Variable jdec : JsonT -> option (jparams F Str Gen).
+  Variable Dg : Type.
+  Variable Dg_eqb : Dg -> Dg -> bool.
+  Variable dg_s : option (sched F) -> Dg.
+  Variable dg_l : option PLoss -> Dg.
+  Variable dg_c : CsvT -> Dg.
+  Variable dg_h : h5file F -> Dg.
+  Variable jenc : jparams F Str Gen Dg -> JsonT.
+  Variable jdec : JsonT -> option (jparams F Str Gen Dg).
   Variable pick_l : unit -> option PLoss.
   Variable unpick_l : PLoss -> option unit.
   Variable csv_print : csvtable F -> CsvT.
@@ -549,7 +527,8 @@ Section LinkP.
   Variable agent_actions : nat -> nat.
   Variable plan : fault.
   Hypothesis propose_len : forall s ps ls, length (propose s ps ls) = s_bsize s.
-  Hypothesis Hjson : json_rt F Str Gen JsonT jenc jdec.
+  Hypothesis Hjson : json_rt F Str Gen JsonT Dg jenc jdec.
+  Hypothesis HDg : Dg_eqb_refl Dg Dg_eqb.
   Hypothesis Hpl : pickle_l_rt unit PLoss pick_l unpick_l.
   Hypothesis Hstr : str_eqb_refl Str str_eqb.
   Hypothesis Hcsv : csv_exact F CsvT csv_print csv_parse.
@@ -567,8 +546,8 @@ Section LinkP.
     f_h5 F JsonT (sched F) PLoss CsvT f = Some (mkH5 F (s_sshape _ _ _ _ _ tpl) (s_series _ _ _ _ _ (of_core tpl d))) ->
     let s := of_core tpl (live _ _ _ (run ops s0)) in
     wf F Str Gen (sched F) unit s -> pick_sched F (s_sched _ _ _ _ _ s) <> None -> pick_l tt <> None ->
-    exists f', save_legacy F Str Gen (sched F) unit JsonT (sched F) PLoss CsvT jenc (pick_sched F) pick_l csv_print f s = SOk _ _ _ _ _ f' /\
-               restore F Str Gen (sched F) unit str_eqb JsonT (sched F) PLoss CsvT jdec (fun b => Some b) unpick_l csv_parse
+    exists f', save_legacy F Str Gen (sched F) unit JsonT (sched F) PLoss CsvT Dg dg_s dg_l dg_c dg_h jenc (pick_sched F) pick_l csv_print f s = SOk _ _ _ _ _ f' /\
+               restore F Str Gen (sched F) unit str_eqb JsonT (sched F) PLoss CsvT Dg Dg_eqb dg_s dg_l dg_c dg_h jdec (fun b => Some b) unpick_l csv_parse
                        fresh_gen table_of f' (s_model _ _ _ _ _ s) = Ok s.
   Proof.
     intros Hc Hd Hf s Hwf Hp1 Hp2.
@@ -611,4 +590,18 @@ Lemma legacy_other_run_refuted :
 Proof.
   exists (folder_of _ _ _ _ _ (T_save_legacy T_empty ex_A)), ex_B. eexists. eexists.
   split; [apply ex_wf|]. split; [vm_compute; reflexivity|]. split; [vm_compute; reflexivity|]. split; [vm_compute; discriminate | reflexivity].
+Qed.
+
+(* calibrate(0) on a freshly constructed calibrator with a saving folder returns normally, has reseeded the samplers
+   (the live state changed) and leaves the folder as it was (here: empty) - the finding calibrate-zero-no-checkpoint *)
+Definition ex_fresh_calibrator : cstate nat nat nat :=
+  mkSt nat nat nat (mkCore nat nat nat (mkCfg 1 None false true) [] [] [] [] [] 0 0 (RR nat [mkS 0 0 1 0 None] 0) 0 [(0, 0)] 0 0) None.
+Lemma calibrate_zero_checkpoint_refuted :
+  exists s s' ret, c_saving (cfg _ _ _ (live _ _ _ s)) = true /\
+    calibrate nat nat nat (fun p _ => p) (fun _ => 0) Nat.leb (fun _ _ => false) (fun _ _ _ => [0]) (fun _ => 7%Z) (fun _ => 0) NoFault 0 s
+      = (s', None, ret) /\
+    live _ _ _ s' <> live _ _ _ s /\ disk _ _ _ s' = None.
+Proof.
+  exists ex_fresh_calibrator. eexists. eexists. split; [reflexivity|]. split; [vm_compute; reflexivity|].
+  split; [vm_compute; discriminate | reflexivity].
 Qed.
